@@ -89,6 +89,10 @@ class File(Component):
         if 'r' in self.mode or '+' in self.mode:
             self._poller.addReader(self, self._fd)
 
+        if self._buffer:
+            # (written before the file was open)
+            self._poller.addWriter(self, self._fd)
+
         self.fire(opened(self.filename, self.mode))
 
     @handler('registered', 'started', channel='*')
@@ -181,7 +185,9 @@ class File(Component):
             self._close()
 
     def write(self, data):
-        if self._poller is not None and not self._poller.isWriting(self._fd):
+        # (not open yet: the payload waits in the buffer, _on_open() asks
+        # for the descriptor to be watched)
+        if self._poller is not None and self._fd is not None and not self._poller.isWriting(self._fd):
             self._poller.addWriter(self, self._fd)
         self._buffer.append(data)
 
